@@ -126,6 +126,16 @@ claim("C09",
       "PriorityQueue (results of slices.IndexFunc/BinarySearchFunc for the closures used are assumptions at the call sites), timers and backoff (time not "
       "modelled; ResettableTimer trusted frames), qruntime.runReconcile backoff policy.",
       "DESIGN.md §6 C09")
+claim("C14",
+      "Proof of the selector semantics as one function: Labels.Matches is pinned down operator by operator for every label map and term (existence, equality, "
+      "set membership, lexical < and <=, inversion, missing labels never satisfy a comparison and satisfy an inverted non-comparison, empty value lists), "
+      "LabelQuery.Matches is exactly the AND of its terms and LabelQueries.Matches exactly the OR of its queries (loops with invariants; empty query and empty "
+      "list match everything); the server-side translation of label queries applies inversion per term (C11 assertions).",
+      COMMON + "Numeric comparison with unit suffixes (compare.GetNumbers) is string parsing and trusted; IDQuery.Matches (regular expressions) trusted. Not under "
+      "contract: that List and the filtered watch apply this function to every resource and rewrite events when the match status changes (collection.List sorts "
+      "its result with sort.Slice, the watch filter closure is trusted), the runtime cache list, the client-side query translation. An operator outside the "
+      "enumeration makes Matches panic by design (may_panic).",
+      "DESIGN.md §6 C14")
 NOT_BUILT = "not built yet in this round (engine in progress); see DESIGN.md §6 for the planned contracts"
 na("C05", "'every committed change eventually makes the controller reconcile' is a liveness statement over schedules and channel deliveries; its safety skeleton "
    "(a non-blocking send on a capacity-1 channel keeps one wake-up pending; the dedup map bounced between two goroutines) is about channel semantics and goroutine "
